@@ -95,3 +95,14 @@ Example a_program_in_the_class :
   let e := WL [VOp ODefine; VSym "x" None; WL [VOp OAdd; VInt 1; VInt (-20); VStr "a b"; WL []; VBool true]] in
   simple e = true /\ show e = "(define x (+ 1 -20 ""a b"" () true))"%string.
 Proof. split; reflexivity. Qed.
+
+(** the operator table of the model is the Operator enum regenerated from /repo on this run (translator tie):
+    same names, same order; names are distinct and determine the operator *)
+From WalModel Require Generated.
+From WalModel.proofs Require GeneratedTies.
+Theorem operator_table_is_the_repositorys : map op_name all_ops = Generated.operator_values.
+Proof. exact GeneratedTies.operator_table_is_the_repositorys. Qed.
+Print Assumptions operator_table_is_the_repositorys.
+Theorem operator_of_its_name : forall o, op_of_name (op_name o) = Some o.
+Proof. exact GeneratedTies.operator_of_its_name. Qed.
+Print Assumptions operator_of_its_name.
